@@ -497,7 +497,7 @@ def num_eq(a, b):
     return a == b and isinstance(a, float) == isinstance(b, float)
 
 
-def run_document_impl(doc):
+def run_document_impl(doc, loader=None):
     """load the YAML text; report every difference between the loaded objects and the document"""
     import numpy as np
     import probes
@@ -506,7 +506,7 @@ def run_document_impl(doc):
     from pyxel.detectors import WavelengthHandling  # noqa: F401
 
     text = yaml_of(doc)
-    r, cfg = outcome(loads, text)
+    r, cfg = outcome(loader or loads, text)
     if r != "ok":
         return {"load": r, "msg": cfg}
     diffs = []
@@ -625,7 +625,188 @@ def document_predicate(doc, impl):
     return None
 
 
+# ------------------------------------------------------------------ the field under test among its neighbours
+ZERO_OK = {"total_thickness", "pixel_vert_size", "pixel_horz_size", "pixel_scale", "quantum_efficiency",
+           "charge_to_volt_conversion", "pre_amplification", "full_well_capacity"}
+REQUIRED = {"Geometry": {"row", "col"}, "Environment": set(), "Characteristics": set(),
+            "APDCharacteristics": {"roic_gain", "avalanche_gain", "pixel_reset_voltage"}}
+EXTRA_OPTIONAL = {"Geometry": {"pixel_scale": 1.5}, "Environment": {"wavelength": 550.0}, "Characteristics": {}, "APDCharacteristics": {}}
+
+
+def contexts_for(cls, field, kind, rng, limit):
+    """ways of writing the OTHER optional entries of the section: each present / absent / zero"""
+    base = dict(section_doc(kind)[SECTION_OF[cls]])
+    base.update(EXTRA_OPTIONAL[cls])
+    others = [f for f in base if f != field and f not in REQUIRED[cls]]
+    out = []
+    n = len(others)
+    masks = list(itertools.product(("present", "absent"), repeat=n))
+    if len(masks) > limit:
+        masks = [masks[0], masks[-1]] + rng.sample(masks[1:-1], limit - 2)
+    for m in masks:
+        out.append(dict(zip(others, m)))
+    for _ in range(max(4, limit // 3)):
+        ctx = {}
+        for f in others:
+            ctx[f] = rng.choice(["present", "absent", "zero"] if f in ZERO_OK else ["present", "absent"])
+        out.append(ctx)
+    for f in others:      # exactly one neighbour missing / zero
+        for how in (("absent", "zero") if f in ZERO_OK else ("absent",)):
+            ctx = {g: "present" for g in others}
+            ctx[f] = how
+            out.append(ctx)
+    seen, res = set(), []
+    for c in out:
+        k = json.dumps(c, sort_keys=True)
+        if k not in seen:
+            seen.add(k)
+            res.append(c)
+    return res
+
+
+def ctx_section(case):
+    cls, field, kind = case["cls"], case["field"], case["kind"]
+    base = dict(section_doc(kind)[SECTION_OF[cls]])
+    base.update(EXTRA_OPTIONAL[cls])
+    sec = {}
+    for f, v in base.items():
+        how = case["ctx"].get(f, "present")
+        if f == field:
+            continue
+        if how == "present":
+            sec[f] = v
+        elif how == "zero":
+            sec[f] = 0
+    sec[field] = untag_num(case["x"])
+    return sec
+
+
+def run_ctx_impl(case):
+    import yaml
+    from pyxel.configuration import loads
+
+    cls, kind = case["cls"], case["kind"]
+    sect = SECTION_OF[cls]
+    sec = ctx_section(case)
+    kw = dict(sec)
+    if kw.get("adc_voltage_range") is not None:
+        kw["adc_voltage_range"] = tuple(kw["adc_voltage_range"])
+    out = {}
+    r, obj = outcome(make_section, kind, cls, kw)
+    out["ctor"] = r
+    if r == "ok":
+        out["ctor_stored_ok"] = all(
+            (stored(obj, f) == v if cls == "Environment" else (same_number(stored(obj, f), v) if isinstance(v, (int, float)) else True))
+            for f, v in sec.items())
+    doc = section_doc(kind)
+    doc[sect] = sec
+    ydoc = {"exposure": {}, DET_KEY[kind]: doc, "pipeline": {}}
+    r, cfg = outcome(loads, yaml.safe_dump(ydoc, sort_keys=False))
+    out["yaml"] = r
+    return out
+
+
+def ctx_predicate(case, impl):
+    cf = (case["cls"], case["field"])
+    x = untag_num(case["x"])
+    inside = in_spec(cf, x)
+    ctx = ", ".join("%s %s" % (f, h) for f, h in sorted(case["ctx"].items()) if h != "present") or "all other entries present"
+    for path in ("ctor", "yaml"):
+        acc = impl[path] == "ok"
+        if inside and not acc:
+            return ("%s.%s:%s:rejects-in-range" % (cf[0], cf[1], path),
+                    "%s.%s = %r (in range; %s) was refused on the %s path (%s)" % (cf[0], cf[1], x, ctx, path, impl[path]))
+        if not inside and acc:
+            return ("%s.%s:%s:accepts-out-of-range" % (cf[0], cf[1], path),
+                    "%s.%s = %r is outside the documented range %s but the %s path accepted it when %s"
+                    % (cf[0], cf[1], x, fmt_range(SPEC[cf]), path, ctx))
+    if impl.get("ctor_stored_ok") is False:
+        return "%s.%s:ctor:stored-differs" % cf, "accepted section stores other values than written (%s)" % ctx
+    return None
+
+
+# ------------------------------------------------------------------ one path, rewritten and loaded again
+def gen_version(rng, kind):
+    """(document description, kind of version): a valid random document, or nonsense"""
+    d = gen_document(rng)
+    r = rng.random()
+    if r < 0.55:
+        return d, "valid"
+    d["broken"] = rng.choice(["qe", "temperature", "bits", "two_modes", "no_mode", "two_detectors", "row"])
+    return d, "invalid"
+
+
+def version_text(d):
+    import yaml
+
+    text = yaml_of(d)
+    b = d.get("broken")
+    if not b:
+        return text
+    y = yaml.safe_load(text)
+    dk = DET_KEY[d["kind"]]
+    if b == "qe":
+        y[dk]["characteristics"]["quantum_efficiency"] = 1.5
+    elif b == "temperature":
+        y[dk]["environment"]["temperature"] = -3.0
+    elif b == "bits":
+        y[dk]["characteristics"]["adc_bit_resolution"] = 70
+    elif b == "row":
+        y[dk]["geometry"]["row"] = 0
+    elif b == "two_modes":
+        y["exposure" if "observation" in y else "observation"] = (
+            {} if "observation" in y else {"parameters": [{"key": "detector.environment.temperature", "values": [100, 200]}]})
+    elif b == "no_mode":
+        y.pop("exposure", None)
+        y.pop("observation", None)
+    elif b == "two_detectors":
+        other = "cmos_detector" if dk != "cmos_detector" else "ccd_detector"
+        y[other] = section_doc("CMOS" if other == "cmos_detector" else "CCD")
+    return yaml.safe_dump(y, sort_keys=False)
+
+
+def run_reload_impl(case, tmp):
+    """write version after version to ONE path and `pyxel.configuration.load` it each time, in this process"""
+    from pathlib import Path
+
+    from pyxel.configuration import load, loads
+
+    path = Path(tmp) / ("%s.yaml" % case["name"])
+    out = []
+    for d in case["versions"]:
+        text = version_text(d)
+        path.write_text(text)
+        if d.get("broken"):
+            r, _ = outcome(load, path)
+            r2, _ = outcome(loads, text)
+            out.append({"load": r, "loads": r2})
+        else:
+            res = run_document_impl(dict(d, run=False), loader=lambda _t: load(path))
+            r2, _ = outcome(loads, text)
+            res["loads"] = r2
+            out.append(res)
+    return out
+
+
+def reload_predicate(case, impl):
+    for n, (d, got) in enumerate(zip(case["versions"], impl)):
+        if d.get("broken"):
+            if got["load"] == "ok":
+                return ("loader:reload-accepts-nonsense", "version %d written to the path is nonsense (%s) but load(path) accepted it "
+                        "(earlier versions of the same path: %s)" % (n, d["broken"], [v.get("broken", "valid") for v in case["versions"][:n]]))
+        else:
+            why = document_predicate(d, got)
+            if why is not None:
+                return ("loader:reload-" + why[0].split(":", 1)[1], "version %d of the path (after %s): %s"
+                        % (n, [v.get("broken", "valid") for v in case["versions"][:n]], why[1]))
+    return None
+
+
 # ------------------------------------------------------------------ body
+def yaml_safe(d):
+    return {k: v for k, v in d.items() if k != "stream"}
+
+
 def load_table():
     import extract
 
@@ -690,6 +871,31 @@ def body(ck: common.Check):
             d["run"] = d["mode"] == "exposure" and (i % 3 == 0)
             doc_cases.append(d)
 
+        # ---- stream 5: the field under test with its neighbours present / absent / zero (constructor, YAML)
+        ctx_cases = []
+        for cf in sorted(SPEC):
+            kinds = ["APD"] if cf[0] == "APDCharacteristics" else (["CCD", "CMOS", "MKID"] if cf[0] == "Characteristics" else KINDS)
+            lo, strict, hi = SPEC[cf]
+            pts = [lo - 1, (lo if not strict else lo + 1), (hi + 1 if hi is not None else lo + 5), (hi if hi is not None else lo + 2)]
+            if cf not in INT_ONLY:
+                pts += [float(lo) - 0.5, (float(hi) + 0.5) if hi is not None else float(lo) + 0.5, float("nan")]
+                if hi is not None:
+                    pts.append(float(hi) * 2.5 + 1)
+            for x in pts:
+                kind = rng.choice(kinds)
+                for ctx in contexts_for(cf[0], cf[1], kind, rng, 8 if quick else 32):
+                    ctx_cases.append({"stream": "ctx", "cls": cf[0], "field": cf[1], "kind": kind, "x": tag_num(x), "ctx": ctx})
+        # ---- stream 6: one path rewritten and loaded again in this process
+        reload_cases = []
+        for i in range(30 if quick else 300):
+            vs = []
+            for _ in range(rng.choice([2, 3, 4])):
+                d, _k = gen_version(rng, None)
+                vs.append(d)
+            if all(v.get("broken") for v in vs):
+                vs[rng.randrange(len(vs))].pop("broken")
+            reload_cases.append({"stream": "reload", "name": "cfg%d" % i, "versions": vs})
+
         reqs = []
         for c in guard_cases:
             reqs.append({"op": "guard", "cls": c["cls"], "field": c["field"], "x": num_json(untag_num(c["x"]))})
@@ -702,13 +908,18 @@ def body(ck: common.Check):
                 kv = [[f, num_json(v)] for f, v in d["det"][sect].items()
                       if isinstance(v, (int, float)) and not isinstance(v, bool)]
                 doc_reqs.append({"op": "load", "cls": cls, "kv": kv})
-        answers = LeanDriver("C12").batch(reqs + doc_reqs)
+        ctx_reqs = []
+        for c in ctx_cases:
+            kv = [[f, num_json(v)] for f, v in ctx_section(c).items() if isinstance(v, (int, float)) and not isinstance(v, bool)]
+            ctx_reqs.append({"op": "load", "cls": c["cls"], "kv": kv})
+        answers = LeanDriver("C12").batch(reqs + doc_reqs + ctx_reqs)
         for a in answers:
             if "bad" in a:
                 raise common.InfraError(f"driver rejected a request: {a}")
         a_guard = answers[: len(guard_cases)]
         a_one = answers[len(guard_cases): len(guard_cases) + len(one_cases)]
-        a_doc = answers[len(guard_cases) + len(one_cases):]
+        a_doc = answers[len(guard_cases) + len(one_cases): len(reqs) + len(doc_reqs)]
+        a_ctx = answers[len(reqs) + len(doc_reqs):]
 
         for c, ans in zip(guard_cases, a_guard):
             impl = run_guard_impl(c)
@@ -775,12 +986,42 @@ def body(ck: common.Check):
             model_ok = all("ok" in a for a in a_doc[3 * i: 3 * i + 3])
             if (impl["load"] == "ok") != model_ok:
                 ck.disagreement("doc", d, impl["load"], a_doc[3 * i: 3 * i + 3])
+
+        for c, ans in zip(ctx_cases, a_ctx):
+            impl = run_ctx_impl(c)
+            ck.case(c, nontrivial=any(h != "present" for h in c["ctx"].values()), stream="ctx")
+            ck.count("ctx:absent=%d zero=%d" % (sum(1 for h in c["ctx"].values() if h == "absent"),
+                                                 sum(1 for h in c["ctx"].values() if h == "zero")))
+            ck.count("ctx:ctor=%s" % impl["ctor"])
+            why = ctx_predicate(c, impl)
+            if why is not None:
+                ck.violation("C12:" + why[0], why[1], {"case": c, "impl": impl})
+            x = untag_num(c["x"])
+            model_raises = "err" in ans
+            iv = {"ctor": impl["ctor"] != "ok", "yaml": impl["yaml"] != "ok"}
+            if iv != {"ctor": model_raises, "yaml": model_raises}:
+                ck.disagreement("ctx", c, {"raised": iv, "outcomes": impl}, {"raised": model_raises})
+
+        for c in reload_cases:
+            impl = run_reload_impl(c, tmp)
+            ck.case({"versions": [yaml_safe(v) for v in c["versions"]]}, nontrivial=True, stream="reload")
+            ck.count("reload:" + ">".join(v.get("broken", "valid") if v.get("broken") is None else "invalid" for v in c["versions"]))
+            why = reload_predicate(c, impl)
+            if why is not None:
+                ck.violation("C12:" + why[0], why[1], {"case": c, "impl": impl})
+            for n, g in enumerate(impl):
+                if (g["load"] == "ok") != (g["loads"] == "ok"):
+                    ck.disagreement("reload", {"name": c["name"], "version": n}, g["load"], g["loads"])
     finally:
         shutil.rmtree(tmp, ignore_errors=True)
 
     ck.extra["guard_table"] = [{"cls": e["cls"], "field": e["field"], "ctor": mod.cond_json(e["ctor"]), "setter": mod.cond_json(e["setter"])} for e in table]
     ck.extra["opaque_fields"] = opaque
-    ck.rule = ("guard: every validated field of the extracted table x boundary points harvested from its guards and its documented "
+    ck.rule = ("ctx: every validated field at in-range / boundary / out-of-range / nan values with the OTHER optional entries of its "
+               "section present, absent or zero (all absent/present subsets up to a limit, random three-way ones, each single "
+               "neighbour missing), through the constructor and a YAML document; reload: one path rewritten 2-4 times (valid "
+               "documents with other values, out-of-range values, two / no running modes, two detectors) and loaded with "
+               "load(path) after every rewrite in the same process; guard: every validated field of the extracted table x boundary points harvested from its guards and its documented "
                "range (k-1, k, k+1, k ± 1 ulp, k ± 0.5, midpoints, ±0, nan, ±inf, huge, a few random) x detector kind, each on five "
                "paths (constructor, property setter, Processor.set with the number, Processor.set with its text, YAML document); "
                "vr: 11 voltage-range shapes x 2 classes; one: all 128 combinations of running-mode and detector keys (+2 without "
@@ -821,6 +1062,12 @@ def replay(rp):
             np.save(tmp + "/target.npy", np.ones((3, 4)))
             impl = run_one_impl(case, tmp)
             why = one_predicate(case, impl)
+        elif st == "ctx":
+            impl = run_ctx_impl(case)
+            why = ctx_predicate(case, impl)
+        elif st == "reload":
+            impl = run_reload_impl(case, tmp)
+            why = reload_predicate(case, impl)
         else:
             impl = run_document_impl(case)
             why = document_predicate(case, impl)
